@@ -220,6 +220,70 @@ fn multiply_numeric(out: &mut Out) {
     go!(u128);
 }
 
+/// `multiply` whose OUTPUT element type is wider than the operands' (the capacity limit is the
+/// output's): 1-byte operands with a 8-byte product, and zero-sized operands with a 1-byte product
+#[derive(Clone, Default)]
+struct N8(#[allow(dead_code)] u8);
+impl std::ops::Mul for N8 {
+    type Output = u64;
+    fn mul(self, _: N8) -> u64 { 1 }
+}
+#[derive(Clone, Default)]
+struct Zu;
+impl std::ops::Mul for Zu {
+    type Output = u8;
+    fn mul(self, _: Zu) -> u8 { 1 }
+}
+
+fn multiply_widening(out: &mut Out) {
+    out.case("multiply widening output type");
+    out.nontrivial();
+    // 1-byte operands, zero inner dimension, 8-byte output
+    let g = grid(8);
+    for &r in &g {
+        for &c in &g {
+            let want = oracle(8, r, c);
+            if want.is_ok() && want.unwrap() > RUN_OK_LIMIT { continue; }
+            for (oa, ob) in [(Order::RowMajor, Order::RowMajor), (Order::ColMajor, Order::ColMajor)] {
+                let mut a = Matrix::<N8>::with_default((r, 0)).unwrap();
+                let mut b = Matrix::<N8>::with_default((0, c)).unwrap();
+                a.set_order(oa);
+                b.set_order(ob);
+                let op = format!("c08 mul multiply 8 {} {r} 0 {} 0 {c}", ord_ch(oa), ord_ch(ob));
+                out.announce(&op);
+                let obs = obs_of(catch(|| a.multiply(b)), out, &op);
+                expect(out, &op, &obs, want.map(|n| (r, c, n)));
+                out.count("multiply:widening-1-to-8-bytes");
+                out.observe(&obs);
+            }
+        }
+    }
+    // zero-sized operands with inner dimension 1 (any extent exists), 1-byte output
+    let zmat = |r: usize, c: usize| -> Matrix<Zu> {
+        let mut v: Vec<Zu> = Vec::new();
+        unsafe { v.set_len(r * c) };
+        let mut m = Matrix::from_row(v);
+        m.reshape((r, c)).unwrap();
+        m
+    };
+    let g = grid(1);
+    for &r in &g {
+        for &c in &[1usize, 2, 3] {
+            let want = oracle(1, r, c);
+            if want.is_ok() && want.unwrap() > RUN_OK_LIMIT { continue; }
+            
+            let a = zmat(r, 1);
+            let b = zmat(1, c);
+            let op = format!("c08 mul multiply 1 R {r} 1 R 1 {c}");
+            out.announce(&op);
+            let obs = obs_of(catch(|| a.multiply(b)), out, &op);
+            expect(out, &op, &obs, want.map(|n| (r, c, n)));
+            out.count("multiply:widening-0-to-1-byte");
+            out.observe(&obs);
+        }
+    }
+}
+
 /// mapping-style operations: source of zero-sized elements (any length exists), target `U`
 fn mapping<U: Default + Clone + Send + Sync + 'static>(out: &mut Out, es_out: usize) {
     assert_eq!(size_of::<U>(), es_out);
@@ -326,6 +390,7 @@ pub fn run_c08(out: &mut Out, _rng: &mut Rng, _tier: Tier) -> String {
     shape_taking::<u128>(out, 16);
     shape_taking::<[u64; 3]>(out, 24);
     multiply_numeric(out);
+    multiply_widening(out);
     mapping::<()>(out, 0);
     mapping::<u8>(out, 1);
     mapping::<u16>(out, 2);
